@@ -34,8 +34,8 @@ ENCODED = [
     "tdgl.finite_volume.util:get_voronoi_polygon_indices",
 ]
 BOUNDS = {
-    "quick": dict(patches=["T2", "F5"], coordinates="each site within +-0.1 of its nominal position (orientation preserved)", topology_meshes=["T2", "F5", "F7", "G9", "R8", "device:bar2", "device:holed"]),
-    "thorough": dict(patches=["T2", "F5", "F7", "R8"], coordinates="each site within +-0.1 of its nominal position", topology_meshes=["T2", "F5", "F7", "G9", "R8", "device:bar2", "device:holed", "device:tee3", "device:cross4"]),
+    "quick": dict(patches=["T2", "F5"], coordinates="each site within +-0.1 of its nominal position (orientation preserved)", topology_meshes=["T2", "F5", "F7", "G9", "R8", "device:bar2", "device:holed", "device:holed:shifted"]),
+    "thorough": dict(patches=["T2", "F5", "F7", "R8"], coordinates="each site within +-0.1 of its nominal position", topology_meshes=["T2", "F5", "F7", "G9", "R8", "device:bar2", "device:holed", "device:holed:shifted", "device:bar2:shifted", "device:tee3", "device:cross4"]),
 }
 ASSUMPTIONS = [
     "topology of the patch concrete; site coordinates symbolic in a box that preserves orientation and non-degeneracy (checked: triangle areas > 0 is an obligation)",
@@ -54,7 +54,134 @@ TV_SAMPLES = {"quick": 2, "thorough": 2}
 
 
 def patch_spec(case):
+    if case.kind == "genmesh":
+        spec = engine.std_patch("tdgl.device.meshing")
+        spec["tdgl.device.meshing"].update(triangle=_FakeTriangle(), Polygon=_ShoelacePolygon, ensure_unique=lambda c: c)
+        return spec
     return engine.std_patch("tdgl.finite_volume.util", "tdgl.finite_volume.edge_mesh", "tdgl.finite_volume.mesh")
+
+
+# ---- what generate_mesh hands to Triangle ---------------------------------------------------------------
+class _FakeTriangle:
+    """stand-in for meshpy.triangle in symbolic runs: records the MeshInfo, returns a 'mesh' whose points
+    are the input vertices plus one arbitrary Steiner point (Triangle's own work is outside the claim)"""
+
+    last = None
+
+    class MeshInfo:
+        def set_points(self, p):
+            self.points = p
+
+        def set_facets(self, f):
+            self.facets = f
+
+        def set_holes(self, h):
+            self.holes = h
+
+    def build(self, mesh_info=None, **kw):
+        from types import SimpleNamespace
+
+        from symx.core import CTX
+
+        _FakeTriangle.last = mesh_info
+        steiner = _FakeTriangle.steiner
+        pts = [[K.at(mesh_info.points, i, 0), K.at(mesh_info.points, i, 1)] for i in range(len(mesh_info.points))] + [list(steiner)]
+        return SimpleNamespace(points=pts, elements=[[0, 1, len(pts) - 1]])
+
+
+class _ShoelacePolygon:
+    """model of shapely's Polygon(...).centroid for a simple polygon (area-weighted centroid)"""
+
+    def __init__(self, pts):
+        n = len(pts)
+        a = cx = cy = 0.0
+        for i in range(n):
+            x0, y0, x1, y1 = K.at(pts, i, 0), K.at(pts, i, 1), K.at(pts, (i + 1) % n, 0), K.at(pts, (i + 1) % n, 1)
+            w = x0 * y1 - x1 * y0
+            a, cx, cy = a + w, cx + (x0 + x1) * w, cy + (y0 + y1) * w
+        from types import SimpleNamespace
+
+        self.centroid = SimpleNamespace(coords=[(cx / (3 * a), cy / (3 * a))])
+
+
+class _SpyTriangle:
+    """concrete runs: the real meshpy.triangle, recording what generate_mesh hands over"""
+
+    def __init__(self, real):
+        self._real, self.MeshInfo = real, real.MeshInfo
+
+    def build(self, mesh_info=None, **kw):
+        mesh = self._real.build(mesh_info=mesh_info, **kw)
+        _SpyTriangle.last = dict(points=np.array(mesh_info.points), facets=np.array(mesh_info.facets), holes=np.array(mesh_info.holes), out=np.array(mesh.points))
+        return mesh
+
+
+GEN_OUTLINES = {
+    "plate+square": (np.array([[0, 0], [1.5, 0], [3, 0], [3, 1.5], [3, 3], [1.5, 3], [0, 3], [0, 1.5]], float), [np.array([[1, 1], [2, 1], [2, 2], [1, 2]], float)]),
+    "plate+two": (np.array([[0, 0], [4, 0], [4, 3], [0, 3]], float), [np.array([[0.5, 0.5], [1.5, 0.6], [1.2, 1.4]], float), np.array([[2.5, 1.5], [3.5, 1.5], [3.5, 2.5], [3.0, 2.8], [2.5, 2.5]], float)]),
+}
+
+
+def body_genmesh(H, case):
+    import tdgl.device.meshing as M
+
+    film0, holes0 = GEN_OUTLINES[case.mesh]
+    sc = H.real("scale", lo=0.1, hi=10.0)
+    tx, ty = H.real("tx", lo=-100.0, hi=100.0), H.real("ty", lo=-100.0, hi=100.0)
+    move = lambda P: H.array2([[float(x) * sc + tx, float(y) * sc + ty] for x, y in P])
+    film, holes = move(film0), [move(h) for h in holes0]
+    all0 = np.concatenate([film0] + holes0)
+    centre0 = (all0.min(axis=0) + all0.max(axis=0)) / 2
+    if H.mode == "sym":
+        _FakeTriangle.steiner = (H.real("steiner_x", lo=-50.0, hi=50.0), H.real("steiner_y", lo=-50.0, hi=50.0))
+        pts, tris = M.generate_mesh(film, hole_coords=holes, max_volume=0.5 * sc * sc)
+        info = _FakeTriangle.last
+        P, F, HK = info.points, np.asarray(info.facets), H.array2([K.elems(h) for h in info.holes])
+        out_extra = [(len(all0), _FakeTriangle.steiner)]
+    else:
+        real = M.triangle
+        M.triangle = _SpyTriangle(real)
+        try:
+            pts, tris = M.generate_mesh(film, hole_coords=holes, max_volume=0.5 * sc * sc)
+        finally:
+            M.triangle = real
+        rec = _SpyTriangle.last
+        P, F, HK = rec["points"], rec["facets"], rec["holes"]
+        out_extra = [(j, (rec["out"][j, 0], rec["out"][j, 1])) for j in range(len(all0), len(rec["out"]))][:1]
+    n = len(all0)
+    H.prove("every outline vertex is handed to Triangle", len(P) == n)
+    for i in range(n):
+        for c in range(2):
+            H.prove_eq(f"vertex {i} coordinate {c} handed to Triangle is centred on the bounding box", K.at(P, i, c), sc * float(all0[i, c] - centre0[c]), scale=100.0)
+            H.prove_eq(f"returned point {i} coordinate {c} is the outline vertex in the caller's frame", K.at(pts, i, c), K.at(film if i < len(film0) else None, i, c) if i < len(film0) else _hole_vertex(holes, holes0, i - len(film0), c), scale=100.0)
+    for j, (sx, sy) in out_extra:
+        H.prove_eq(f"returned point {j} (added by Triangle) is shifted back by the bounding-box centre: x", K.at(pts, j, 0), sx + (sc * float(centre0[0]) + tx), scale=100.0)
+        H.prove_eq(f"returned point {j} (added by Triangle) is shifted back by the bounding-box centre: y", K.at(pts, j, 1), sy + (sc * float(centre0[1]) + ty), scale=100.0)
+    # facets: one closed cycle per outline
+    start, want = 0, []
+    for ring in [film0] + holes0:
+        m = len(ring)
+        want += [(start + k, start + (k + 1) % m) for k in range(m)]
+        start += m
+    H.prove("facets are one closed cycle per outline (film, then each hole)", [tuple(map(int, f)) for f in F] == want)
+    H.prove("one marker per hole", len(HK) == len(holes0))
+    start = len(film0)
+    for k, h0 in enumerate(holes0):
+        m = len(h0)
+        for e in range(m):
+            a, b = start + e, start + (e + 1) % m
+            ax, ay, bx, by = K.at(P, a, 0), K.at(P, a, 1), K.at(P, b, 0), K.at(P, b, 1)
+            mx, my = K.at(HK, k, 0), K.at(HK, k, 1)
+            H.prove(f"hole {k}: the marker lies strictly inside the hole outline handed to Triangle (edge {e})", (bx - ax) * (my - ay) - (by - ay) * (mx - ax) > 0)
+        start += m
+
+
+def _hole_vertex(holes, holes0, i, c):
+    for h, h0 in zip(holes, holes0):
+        if i < len(h0):
+            return K.at(h, i, c)
+        i -= len(h0)
+    raise IndexError(i)
 
 
 def cases(tier, seed):
@@ -70,6 +197,8 @@ def cases(tier, seed):
             out.append(Case("areas:L-shape-with-hole:rot=3-4-5", kind="areas", rot=(Fraction(3, 5), Fraction(4, 5)), seed=seed))
     except Exception as e:
         out.append(Case("areas:L-shape-with-hole", kind="broken", mesh="L-shape", seed=seed, error=f"{type(e).__name__}: {e}"[:200]))
+    for g in GEN_OUTLINES:
+        out.append(Case(f"generate_mesh:{g}", kind="genmesh", mesh=g, seed=seed))
     for m in b["topology_meshes"]:
         try:
             meshes.warm([m], seed)
@@ -306,6 +435,8 @@ def body(H, case):
         return body_areas(H, case)
     if case.kind == "broken":
         raise engine.HarnessError(f"the real Mesh.from_triangulation fails on {case.mesh}: {case.error}")
+    if case.kind == "genmesh":
+        return body_genmesh(H, case)
     return body_patch(H, case) if case.kind == "patch" else body_topology(H, case)
 
 
@@ -397,6 +528,21 @@ def body_topology(H, case):
             todo.extend(adj[v])
     H.prove("every boundary site has exactly two boundary edges", all(len(v) == 2 for v in adj.values()))
     H.prove(f"Euler characteristic V - E + T = 1 - holes ({loops - 1} holes)", V - len(edges) + T == 1 - (loops - 1))
+    if case.mesh.startswith("device:"):
+        dev = meshes.get_device(case.mesh.split(":", 1)[1], case.seed)
+
+        def shoelace(p):
+            p = np.asarray(p, float)
+            return 0.5 * abs(float(np.dot(p[:, 0], np.roll(p[:, 1], -1)) - np.dot(p[:, 1], np.roll(p[:, 0], -1))))
+
+        from tdgl.finite_volume.util import triangle_areas as tri_areas
+
+        H.prove(f"the mesh has one inner boundary loop per declared hole ({len(dev.holes)})", loops - 1 == len(dev.holes))
+        want = shoelace(dev.film.points) - sum(shoelace(h.points) for h in dev.holes)
+        got = float(np.sum(tri_areas(mesh.sites, tris)))
+        H.prove("the triangles cover the area of the film minus its holes (1e-9)", abs(got - want) <= 1e-9 * want)
+        inside = [bool(h.contains_points(mesh.sites[tris].mean(axis=1)).any()) for h in dev.holes]
+        H.prove("no triangle centroid lies inside a declared hole", not any(inside))
     from tdgl.finite_volume.util import triangle_areas
 
     H.prove("all triangles positively oriented and non-degenerate", bool((triangle_areas(mesh.sites, tris) > 0).all()))
